@@ -4,6 +4,7 @@ import (
 	"fmt"
 	"go/token"
 	"go/types"
+	"os"
 	"sort"
 	"strings"
 
@@ -112,7 +113,27 @@ func (e *Engine) verifyTop(fn *ssa.Function, c *Contract, res *FuncResult) {
 	} else {
 		fp = footprint{heaps: map[string][]func(T) T{}}
 	}
-	out, results := e.runFunction(fr, st)
+	rets, _ := e.runBlocks(fr, fn.Blocks[0], st, nil, nil)
+	if os.Getenv("GVC_SPLIT_POST") != "" {
+		for _, r := range rets {
+			if r.st.pc.S == "false" {
+				continue
+			}
+			fullr := append(append([]Val{}, args...), r.results...)
+			line := 0
+			if r.pos.IsValid() {
+				line = e.P.Fset.Position(r.pos).Line
+			}
+			for _, cl := range c.Clauses {
+				if cl.Kind != "ensures" {
+					continue
+				}
+				g := e.evalSpec(fr, e.clauseFunc(c, cl), fullr, r.st, fr.entry)
+				e.oblige(r.st.clone(), "post", fmt.Sprintf("%s@L%d", clauseLabel(cl), line), g, r.pos)
+			}
+		}
+	}
+	out, results := e.mergeReturns(fr, rets)
 	if out == nil {
 		e.note("no reachable return in %s", fn.Name())
 		return
